@@ -126,7 +126,7 @@ Section Acts.
       + destruct l'; cbn in *; exact Hsim.
     - subst c'. destruct (recovers h).
       + cbn [mlog m_core m_idx].
-        destruct (http_error 500 msg500 (logc (ERecovered i (g_written (c_w (m_core s'))) (g_status (c_w (m_core s')))) (m_core s')))
+        destruct (http_error 500 msg500 (logc (ERecovered i (r_wrote (rc (c_w (m_core s')))) (r_code (rc (c_w (m_core s'))))) (m_core s')))
           as [c2 p].
         destruct p; cbn.
         * reflexivity.
